@@ -817,6 +817,7 @@ func Run(r *evid.Run) {
 	r.Sample(Case{Part: "algebra", Atoms: []string{"DefaultOptionsV1()", "WithIndent(\" \")", "Multiline(false)"}})
 	irrelevance(r)
 	witnessLaws(r)
+	indentStrings(r)
 	formatWrappers(r)
 	scoping(r, ks)
 	v1v2(r, ks)
